@@ -10,6 +10,7 @@ import (
 	"strconv"
 	"strings"
 	"sync"
+	"time"
 
 	"github.com/conduitio/conduit-commons/opencdc"
 	sdk "github.com/conduitio/conduit-processor-sdk"
@@ -251,6 +252,7 @@ type fakeSource struct {
 	id      int     // task id (0 for the single-source component)
 	batches [][]rec // nil: use the case's batches
 	acks    []int   // log indices of this source's A events
+	inAck   int     // Source.Ack calls in flight
 }
 
 func (s *fakeSource) ID() string                 { return "t" + strconv.Itoa(s.id) }
@@ -286,8 +288,28 @@ func (s *fakeSource) Ack(_ context.Context, ps []opencdc.Position) error {
 		parts[i] = posOf(p).String()
 	}
 	s.e.mu.Lock()
+	overlap := s.inAck > 0
+	s.inAck++
+	k := 0
+	if s.e.conc {
+		k = int(s.e.yieldRng.U64() % 6)
+	}
+	s.e.mu.Unlock()
+	// a slow source plugin: the ack takes effect (is logged) when the call completes
+	for i := 0; i < k; i++ {
+		runtime.Gosched()
+	}
+	if s.e.conc && k == 5 {
+		time.Sleep(50 * time.Microsecond)
+	}
+	s.e.mu.Lock()
+	s.inAck--
 	s.acks = append(s.acks, len(s.e.log))
-	s.e.log = append(s.e.log, "A["+strings.Join(parts, ",")+"]")
+	ev := "A[" + strings.Join(parts, ",") + "]"
+	if overlap {
+		ev = "X[overlap]"
+	}
+	s.e.log = append(s.e.log, ev)
 	s.e.owner = append(s.e.owner, -1)
 	s.e.mu.Unlock()
 	return nil
